@@ -349,7 +349,28 @@ fn check_sk(c: &SkC8, ctx: &mut CaseCtx) -> Result<(), Failure> {
     ctx.check(format!("{:?}", tc) == format!("Commitment({:?})", naive), sig(P, "skzg", "commit", "not_key_defined_sum"), || {
         "streaming commitment differs from the naive sum over the published powers".into()
     })?;
-    // the published powers are powers of one trapdoor: the proof of X*q + 0 at 0 is commit(q)
+    // a folded stream (the polynomial folded `depth` times with challenges) commits to the naive sum over
+    // the published powers of the folded coefficients - for every length, multiple of 2^depth or not
+    let depth = (c.extra as usize / 4) % 4;
+    if depth >= 1 {
+        use ark_poly_commit::streaming_kzg::FoldedPolynomialStream;
+        let ch: Vec<Fr> = (0..depth).map(|i| Fr::rand(&mut rng(c.seed ^ (0x77 + i as u64)))).collect();
+        let folds = super::c14::naive_folds(&p, &ch);
+        let keep = (p.len() + (1 << depth) - 1) >> depth;
+        let folded: Vec<Fr> = folds[depth - 1][..keep].to_vec();
+        let be: Vec<Fr> = p.iter().rev().cloned().collect();
+        let be_stream = &be[..];
+        let st = FoldedPolynomialStream::new(&be_stream, &ch);
+        ctx.label_if(p.len() % (1 << depth) != 0, "folded_stream_length_not_multiple_of_2^depth");
+        if let Out::Ok(fc) = guard_plain(|| sck.commit(&st)) {
+            let naive_f = naive_sum(&g, &folded).map_err(|e| Failure { sig: sig(P, "skzg", "key", "too_short"), msg: e })?.into_affine();
+            ctx.check(format!("{:?}", fc) == format!("Commitment({:?})", naive_f), sig(P, "skzg", "commit(folded stream)", "not_key_defined_sum"), || {
+                format!("length {}, depth {depth}: commitment of the folded stream differs from the naive sum over the published powers of its {} coefficients", p.len(), folded.len())
+            })?;
+        } else {
+            return ctx.fail(sig(P, "skzg", "commit(folded stream)", "abort"), format!("length {}, depth {depth}", p.len()));
+        }
+    }
     Ok(())
 }
 
@@ -395,7 +416,7 @@ pub fn spec() -> PropertySpec {
         3000,
         2,
         |_| {
-            (any::<u16>(), any::<u64>(), 0u8..4, 0u8..4, 0u8..3)
+            (any::<u16>(), any::<u64>(), 0u8..4, 0u8..16, 0u8..3)
                 .prop_map(|(len, seed, kind, extra, key_seed)| SkC8 { len, seed, kind, extra, key_seed })
                 .boxed()
         },
